@@ -16,6 +16,9 @@ impl   : real solver over real DSLEvaluator (in process)
 model  : PS.C10.solve (driver op c10.session) over the C11 evaluator model; the answer also carries
          the Lean spec (specYields, sat, verdict, horizon) computed from the compositional semantics
 oracle : this file's reading of the English statement, evaluating with gen.denote only
+
+A second kind of case (kind "restart", 30% of the quick cases / 6% of the thorough ones) drives RestartPBESolver over
+both sub-solvers on real enumerators: harness/c10_restart.py (gen/check/shrink/corpus are dispatched from here).
 """
 import itertools
 import json
@@ -131,7 +134,14 @@ def gen_task(rng, name, spec, var_types, tier):
     return {"examples": examples, "source": source, "dl": dl, "answers": answers}
 
 
+# share of the cases that drive RestartPBESolver (harness/c10_restart.py); a restart case costs 20-30 times a plain one
+RESTART_SHARE = {"quick": 0.3, "thorough": 0.06}
+
+
 def gen(rng, i, tier):
+    if rng.random() < RESTART_SHARE.get(tier, 0.3):
+        from harness import c10_restart
+        return c10_restart.gen(rng, i, tier)
     name = rng.choice(["arith", "lists", "lists"])
     spec = G.DSLS[name]
     if rng.random() < 0.5:
@@ -155,7 +165,12 @@ _SHRINK_BUDGET = [1500]      # candidates per worker process: the first failures
 
 
 def shrink(case):
-    for c in _shrink(case):
+    if case.get("kind") == "restart":
+        from harness import c10_restart
+        src = c10_restart.shrink(case)
+    else:
+        src = _shrink(case)
+    for c in src:
         if _SHRINK_BUDGET[0] <= 0:
             return
         _SHRINK_BUDGET[0] -= 1
@@ -417,6 +432,9 @@ def all_sat(term, t, spec, skips):
 
 # ------------------------------------------------------------------------------- check
 def check(case, M):
+    if case.get("kind") == "restart":
+        from harness import c10_restart
+        return c10_restart.check(case, M)
     dsl, semt, spec = G.make_dsl(case["dsl"])
     prims = G.prims_by_name(dsl)
     var_types = [_tt(t) for t in case["var_types"]]
@@ -585,7 +603,8 @@ def corpus():
     add1b = ["A", ["P", "+"], [["P", "1"], ["V", 0]]]
     div = ["A", ["P", "div"], [["P", "1"], ["V", 0]]]
     exs = [[[0], 1], [[1], 2]]
-    return [
+    from harness import c10_restart
+    return c10_restart.corpus() + [
         # C10-F1: a task without examples (NaivePBESolver divided by zero)
         {"dsl": "arith", "var_types": ["int"], "use_cache": True, "skips": ["ZeroDivisionError", "IndexError"],
          "ops": [["task", {"examples": [], "source": {"list": [["P", "1"], ["V", 0]]}, "dl": [], "answers": ["F", "F"]}]]},
